@@ -145,13 +145,15 @@ Fixpoint split_gt (s : string) : option (string * string) :=
    correspondence between the two is lemma/check `lex (render ..)`, for well-formed names) *)
 Definition var_toks (x : string) : list token :=
   match x with
-  | String "<" r =>
-    match split_gt r with
-    | Some (t, u) =>
-      TCmp CLt :: TId t :: TCmp CGt :: (match u with EmptyString => [] | _ => [TId u] end)
-    | None => [TId x]
-    end
-  | _ => [TId x]
+  | String c r =>
+    if Ascii.eqb c "<" then
+      match split_gt r with
+      | Some (t, u) =>
+        TCmp CLt :: TId t :: TCmp CGt :: (match u with EmptyString => [] | _ => [TId u] end)
+      | None => [TId x]
+      end
+    else [TId x]
+  | EmptyString => [TId x]
   end.
 
 Definition paren (ts : list token) : list token := TLPar :: ts ++ [TRPar].
@@ -418,7 +420,7 @@ Fixpoint all_but_last {A} (f : A -> bool) (l : list A) : bool :=
   | x :: r => match r with [] => true | _ => f x && all_but_last f r end
   end.
 
-Definition starts_bt (s : string) : bool := match s with String "`" _ => true | _ => false end.
+Definition starts_bt (s : string) : bool := match s with String c _ => Ascii.eqb c "`" | _ => false end.
 Fixpoint ends_bt (s : string) : bool :=
   match s with
   | EmptyString => false
